@@ -230,15 +230,20 @@ def c12_6(ctx):
     if not a:
         ctx.fail(f, f.node, 'array branch of _df_fillna not found')
         return
-    r0 = [r for x in a[0].body for r in ast.walk(x) if isinstance(r, ast.Return)]
-    want = NS('df_fillna(pd.DataFrame(%s) if len(%s.shape) == 2 else pd.Series(%s), method, axis, limit).values' % (df, df, df))
-    want2 = NS('df_fillna(pd.DataFrame(%s) if len(%s.shape) == 2 else pd.Series(%s), method=method, axis=axis, limit=limit).values' % (df, df, df))
-    if not r0:
+    # spelling-independent (conditional expression inside the call, or two returns, or a temporary): every exit of the array branch is
+    # df_fillna(<frame for 2-d / series otherwise>, method, axis, limit).values
+    sp = [p for p in sym_paths(ast.Module(body=a[0].body, type_ignores=[])) if p.term == 'return']
+    if not sp:
         ctx.fail(f, a[0], 'array path is `?`')
-    for r_ in r0:          # EVERY exit of the array branch: an array result must be the pandas result on the same cells (limit, inf and method order included)
+    forms = lambda w: (NS('df_fillna(%s, method, axis, limit).values' % w), NS('df_fillna(%s, method=method, axis=axis, limit=limit).values' % w))
+    for p in sp:          # EVERY exit of the array branch: an array result must be the pandas result on the same cells (limit, inf and method order included)
         ctx.count(1)
-        if N(r_.value) not in (want, want2):
-            ctx.fail(f, r_, 'array path is `%s`: arrays must take the round trip through pandas so that numpy and pandas inputs are filled identically' % U(r_.value))
+        two = p.holds('len(%s.shape) == 2' % df, True)
+        one = p.holds('len(%s.shape) == 2' % df, False)
+        want = forms('pd.DataFrame(%s)' % df) if two else forms('pd.Series(%s)' % df) if one else ()
+        if p.text() not in want:
+            ctx.fail(f, p.node, 'array path is `%s`%s: arrays must take the round trip through pandas (a frame for 2-d, a series otherwise) so that numpy and pandas inputs are filled identically' % (
+                p.text(), '' if (two or one) else ' without looking at the number of dimensions'))
     # the input itself is handed back only when there is no method at all
     pm = parent_map(f.node)
     for r_ in [x for x in body_nodes(f.node) if isinstance(x, ast.Return) and x.value is not None and U(x.value) == df]:
